@@ -89,7 +89,7 @@ def run_config(cfg, builtin_name="scale"):
             received.append(v)
             return np.zeros(N_ROWS)
 
-        formula = f"y ~ 0 + fv_rec(v={name_src})" if form == "keyword" else f"y ~ 0 + fv_rec({name_src})"
+        formula = {"keyword": f"y ~ 0 + fv_rec(v={name_src})", "keyword_expr": f"y ~ 0 + fv_rec(v={name_src} * 1)"}.get(form, f"y ~ 0 + fv_rec({name_src})")
     else:
         name = builtin_name if builtin else ("abs" if pyb else "probe_fn")
         name_src = name
@@ -145,6 +145,8 @@ def run_config(cfg, builtin_name="scale"):
             return "builtin", ""  # the first component resolved to the built-in class, which has no attribute 'sub'
         if role == "callee" and builtin_name == "Treatment" and "unrecognized type" in msg and "Treatment" in msg:
             return "builtin", ""  # the built-in Treatment class was called: its instance is not a column
+        if role == "arg" and form == "keyword_expr" and isinstance(e, TypeError) and "unsupported operand" in msg and ("'type'" in msg or "ABCMeta" in msg):
+            return "builtin", ""  # the name resolved to the built-in class, which cannot be multiplied by 1
         if "builtin_function_or_method" in msg:
             return "decoy:python_builtins", msg[:80]
         return "raise", type(e).__name__ + ": " + msg[:80]
@@ -208,11 +210,41 @@ def _replay2(case):
     return prob, case.get("_event")
 
 
+def none_bindings(rep):
+    """A binding to None is a binding: the first scope that defines the name wins even when the value is None."""
+    from formulae import design_matrices
+
+    df = pd.DataFrame({"y": np.arange(N_ROWS, dtype=float), "x": np.arange(N_ROWS, dtype=float) + 1})
+    got = []
+
+    def rec(v):
+        got.append(v)
+        return np.zeros(N_ROWS)
+
+    def with_local(probe_none=None):
+        return design_matrices("y ~ 0 + fv_rec(probe_none)", df, extra_namespace={"fv_rec": rec, "probe_none": "EXTRA"})
+
+    g = {"design_matrices": design_matrices, "df": df, "rec": rec, "probe_none": None}
+    exec("def with_global():\n    return design_matrices('y ~ 0 + fv_rec(probe_none)', df, extra_namespace={'fv_rec': rec, 'probe_none': 'EXTRA'})", g)  # pylint: disable=exec-used
+    for how, fn in (("local None over extra_namespace", with_local), ("global None over extra_namespace", g["with_global"]),
+                    ("None in extra_namespace only", lambda: design_matrices("y ~ 0 + fv_rec(probe_none)", df, extra_namespace={"fv_rec": rec, "probe_none": None}))):
+        got.clear()
+        rep.cov["evaluations"] += 1
+        try:
+            fn()
+            ok = len(got) == 1 and got[0] is None
+            err = ""
+        except Exception as e:  # pylint: disable=broad-except
+            ok, err = False, type(e).__name__ + ": " + str(e)[:80]
+        if not ok:
+            rep.violation({"clause": "binding_to_None_skipped", "how": how}, {"received": repr(got[:1]), "error": err})
+
+
 def main(tier, seed):
     common.use_repo()
     rep = Report("C11", tier, seed)
     rep.rule = (
-        "Complete: all 4608 configurations of Scopes_MC (2^5 scope subsets (data only for arguments) x 8 decoy subsets (other frames' locals, other frames' globals, "
+        "Complete: all 5376 configurations of Scopes_MC (2^5 scope subsets (data only for arguments) x 8 decoy subsets (other frames' locals, other frames' globals, "
         "a name spelled like a Python built-in) x role x "
         "name form (argument: plain / back-quoted / value of a keyword argument; callee: plain / a.b.f / a.b.c.f) x env 0..3); each terminal state is replayed with sentinels through four synthetic caller modules. "
         "Non-trivial = configurations in which at least two scopes (or a decoy) define the name."
@@ -261,6 +293,7 @@ def main(tier, seed):
                 rep.notes.setdefault("path_drift_sample", {"clause": v[3], "config": c["cfg"]})
     finally:
         shutil.rmtree(tmp, ignore_errors=True)
+    none_bindings(rep)
     for c, prob in zip(cases, results):
         rep.cov["evaluations"] += 1
         if len(c["cfg"]["defined"]) + len(c["cfg"]["decoys"]) >= 2:
